@@ -9,4 +9,4 @@ CONSTANTS
   SubBeforeExact = TRUE
   Positive = TRUE
   QSplits = FALSE
-INVARIANT EmitTable
+INVARIANT EmitTableP
